@@ -39,7 +39,11 @@ OPS = ([("use_name", "numpy"), ("use_name", "casadi"), ("use_name", "bogus"), ("
        + [("use_fresh_numpy",)]
        # a step with an explicit engine on elements of user-defined subclasses that record which engine every one of
        # their methods is handed
-       + [("step_probe", "spyNP"), ("step_probe", "spyMX")])
+       + [("step_probe", "spyNP"), ("step_probe", "spyMX")]
+       # an explicit engine object that is FALSY (a user-defined engine with __len__ == 0 / __bool__ False) is an engine
+       # all the same; and an explicit NumPy engine keeps its OWN variable fill when another NumPy engine with another
+       # fill was created (and selected) after it
+       + [("step", "spyNP0"), ("step_two_fills",)])
 
 KIND_TYPES = {"numpy": (np.ndarray, np.floating, float), "SX": (cs.SX,), "MX": (cs.MX,)}
 
@@ -77,7 +81,7 @@ def reference_calls(spec, label):
         saved = sym_metanet.engine
         try:
             real = {"spyNP": lambda: env.numpy_engine(np.float64(30.0)), "spySX": lambda: env.casadi_engine("SX"),
-                    "spyMX": lambda: env.casadi_engine("MX")}[label]()
+                    "spyMX": lambda: env.casadi_engine("MX"), "spyNP0": lambda: env.numpy_engine(np.float64(30.0))}[label]()
             spy = SpyEngine(real, label)
             sym_metanet.engine = spy
             build(spec).net.step(engine=spy, **P)
@@ -85,6 +89,14 @@ def reference_calls(spec, label):
         finally:
             sym_metanet.engine = saved
     return _REFCALLS[key]
+
+
+class FalsySpy(SpyEngine):
+    def __len__(self):
+        return 0
+
+    def __bool__(self):
+        return False
 
 
 def run_history(spec: NetSpec, hist, st: Stats):
@@ -98,7 +110,8 @@ def run_history(spec: NetSpec, hist, st: Stats):
         current = initial
         spies = {"spyNP": SpyEngine(env.numpy_engine(np.float64(30.0)), "spyNP"),
                  "spySX": SpyEngine(env.casadi_engine("SX"), "spySX"),
-                 "spyMX": SpyEngine(env.casadi_engine("MX"), "spyMX")}
+                 "spyMX": SpyEngine(env.casadi_engine("MX"), "spyMX"),
+                 "spyNP0": FalsySpy(env.numpy_engine(np.float64(30.0)), "spyNP0")}
         built = build(spec)
         for i, op in enumerate(hist):
             st.inc("transitions")
@@ -207,6 +220,31 @@ def run_history(spec: NetSpec, hist, st: Stats):
                 if engines.get_current_engine() is not current or sym_metanet.engine is not current:
                     bad("step/selection-changed", f"current engine is now {engines.get_current_engine()!r}")
                     current = engines.get_current_engine()
+            elif k == "step_two_fills":
+                e1 = env.numpy_engine(2.0)
+                e2 = engines.use("numpy", var_type=7.0)  # created later, with another fill, and selected
+                current = e2
+                if engines.get_current_engine() is not e2 or sym_metanet.engine is not e2:
+                    bad("use/not-current", "the engine returned by use('numpy', var_type=7.0) is not the current engine")
+                st.inc("executions", 2)
+                for eng_, fill in ((e1, 2.0), (None, 7.0)):
+                    b_ = build(spec)
+                    try:
+                        if eng_ is None:
+                            b_.net.step(**P)
+                        else:
+                            b_.net.step(engine=eng_, **P)
+                    except Exception as e:  # noqa: BLE001
+                        bad(f"step/exception/{exc_site(e)}/{type(e).__name__}", f"two NumPy engines with different fills: {exc_text(e)}")
+                        return problems
+                    for key, var, n, role in spec.variables():
+                        el = b_.obj[key]
+                        d = el.states if role == "state" else (el.actions if role == "action" else el.disturbances)
+                        arr = np.asarray(d[var], dtype=float)
+                        if not np.all(arr == fill):
+                            bad("step/engine-configuration-not-honoured", f"{'explicit' if eng_ else 'selected'} NumPy engine with "
+                                f"var_type={fill}: {var} of {key} was created as {arr.tolist()}")
+                            break
             elif k == "stepfail":
                 explicit = spies[op[1]] if op[1] else None
                 bad_P = {k_: v for k_, v in P.items() if k_ != "T"}
